@@ -80,24 +80,33 @@ theorem Torn.nil : Torn [] := by
 /-- one more scan step on a torn tail: nothing is accepted, the scan ends at `pos` -/
 theorem scan_torn (tail : Bytes) (ht : Torn tail) (f pos : Nat) (st : ScanState) :
     ∃ how, scan (f + 1) tail pos st = .ok ⟨pos, st.index, st.ltid, st.txns, how⟩ ∧
-      (how = .eof → tail = []) ∧ how ≠ .stop := by
+      (how = .eof ↔ tail = []) ∧ how ≠ .stop := by
   cases ht with
   | part s t n hb htl hn =>
     simp only [scan, parseTxn_torn s t pos n hb htl hn]
+    have hlen : ((encodeTxnSt s t).take n).length = n := by
+      rw [List.length_take, encodeTxnSt_length _ _ hb]; omega
     by_cases h0 : n = 0
     · subst h0; exact ⟨.eof, by simp, by simp, by simp⟩
-    · by_cases h23 : 23 ≤ n
-      · exact ⟨.truncSave, by simp [h0, h23], by simp, by simp⟩
-      · exact ⟨.truncShort, by simp [h0, h23], by simp, by simp⟩
+    · have hne : (encodeTxnSt s t).take n ≠ [] := by
+        intro h; rw [h] at hlen; simp at hlen; omega
+      by_cases h23 : 23 ≤ n
+      · exact ⟨.truncSave, by simp [h0, h23], by simp [hne], by simp⟩
+      · exact ⟨.truncShort, by simp [h0, h23], by simp [hne], by simp⟩
   | checkpoint t hb =>
     have := parseTxn_checkpoint t pos [] hb
     rw [List.append_nil] at this
-    exact ⟨.truncSave, by simp [scan, this], by simp, by simp⟩
+    have hne : encodeTxnSt stCheckpoint t ≠ [] := by
+      intro h
+      have := encodeTxnSt_length stCheckpoint t hb
+      rw [h] at this; simp at this
+    exact ⟨.truncSave, by simp [scan, this], by simp [hne], by simp⟩
 
 /-- THE recovery lemma: a cleanly written file followed by a torn tail recovers to exactly the
     cleanly written file — bytes, position, index, last tid, transaction list. -/
 theorem recover_clean_tail (cs : List FTxn) (hw : FileWF cs) (tail : Bytes) (ht : Torn tail) :
-    ∃ r, recover (encodeFile cs ++ tail) = .ok r ∧ r.IsClean cs := by
+    ∃ r, recover (encodeFile cs ++ tail) = .ok r ∧ r.IsClean cs ∧
+      (tail = [] → r.how = .eof ∧ r.saved = none) := by
   have hlen4 : (encodeFile cs ++ tail).length = 4 + (encodeTxns cs).length + tail.length := by
     simp [encodeFile, magic]; omega
   have hge := encodeTxns_length_ge cs 4 hw
@@ -117,11 +126,11 @@ theorem recover_clean_tail (cs : List FTxn) (hw : FileWF cs) (tail : Bytes) (ht 
     exact hscan
   have hpos : (encodeFile cs).length = 4 + (encodeTxns cs).length := by
     simp [encodeFile, magic]; omega
-  refine ⟨_, by simp only [recover, hri]; rfl, ?_, ?_, ?_, ?_, ?_⟩
+  refine ⟨_, by simp only [recover, hri]; rfl, ⟨?_, ?_, ?_, ?_, ?_⟩, ?_⟩
   · simp only
     rw [if_neg (by omega)]
     cases how with
-    | eof => simp [heof rfl]
+    | eof => simp [heof.1 rfl]
     | truncShort => simp only; rw [← hpos]; exact take_append_eq rfl
     | truncSave => simp only; rw [← hpos]; exact take_append_eq rfl
     | stop => exact absurd rfl hstop
@@ -129,11 +138,26 @@ theorem recover_clean_tail (cs : List FTxn) (hw : FileWF cs) (tail : Bytes) (ht 
   · rfl
   · rfl
   · simp
+  · intro h
+    have := heof.2 h
+    subst this
+    simp
+
+theorem recover_clean_tail' (cs : List FTxn) (hw : FileWF cs) (tail : Bytes) (ht : Torn tail) :
+    ∃ r, recover (encodeFile cs ++ tail) = .ok r ∧ r.IsClean cs := by
+  obtain ⟨r, h1, h2, _⟩ := recover_clean_tail cs hw tail ht
+  exact ⟨r, h1, h2⟩
+
+theorem recover_clean_eof (cs : List FTxn) (hw : FileWF cs) :
+    ∃ r, recover (encodeFile cs) = .ok r ∧ r.IsClean cs ∧ r.how = .eof ∧ r.saved = none := by
+  obtain ⟨r, h1, h2, h3⟩ := recover_clean_tail cs hw [] Torn.nil
+  rw [List.append_nil] at h1
+  exact ⟨r, h1, h2, h3 rfl⟩
 
 theorem recover_clean (cs : List FTxn) (hw : FileWF cs) :
     ∃ r, recover (encodeFile cs) = .ok r ∧ r.IsClean cs := by
-  have := recover_clean_tail cs hw [] Torn.nil
-  simpa using this
+  obtain ⟨r, h1, h2, _⟩ := recover_clean_eof cs hw
+  exact ⟨r, h1, h2⟩
 
 /-! ### raw writes on images -/
 
@@ -171,6 +195,17 @@ theorem applyWrite_status (base : Bytes) (st st' : Nat) (t : FTxn) :
 theorem applyTrunc_end (base x : Bytes) : applyEv (base ++ x) (.trunc base.length) = base := by
   simp [applyEv, zeros]
 
+theorem applyWrite_end' (img d : Bytes) (off : Nat) (h : off = img.length) :
+    applyWrite img off d = img ++ d := by subst h; exact applyWrite_end _ _
+
+theorem applyWrite_status' (base : Bytes) (st st' : Nat) (t : FTxn) (off : Nat)
+    (h : off = base.length) :
+    applyWrite (base ++ encodeTxnSt st t) (off + 16) (be 1 st') = base ++ encodeTxnSt st' t := by
+  subst h; exact applyWrite_status _ _ _ _
+
+theorem applyTrunc_end' (base x : Bytes) (off : Nat) (h : off = base.length) :
+    applyEv (base ++ x) (.trunc off) = base := by subst h; exact applyTrunc_end _ _
+
 /-! ### cuts and concatenated traces -/
 
 theorem image_append_lt (init : Bytes) (es es' : List Ev) (k nb : Nat) (h : k < es.length) :
@@ -192,5 +227,322 @@ theorem returned_append_ge (es es' : List Ev) (k : Nat) (h : es.length ≤ k) :
 theorem returned_append_lt (es es' : List Ev) (k : Nat) (h : k < es.length) :
     returned ((es ++ es').take k) = returned (es.take k) := by
   rw [List.take_append_of_le_length (by omega)]
+
+
+/-! ### one operation: every cut inside it, and its net effect -/
+
+/-- the vote write, cut anywhere (or complete): a torn tail -/
+theorem torn_vote (pos : Nat) (t : FTxn) (h : AbortWF t) (nb : Nat) :
+    Torn ((voteBytes pos t).take nb) := by
+  have hb := mkTxn_body pos t h.1
+  by_cases hn : nb < t.tlen + 8
+  · exact Torn.part _ _ _ hb (by simpa using h.2) (by simpa using hn)
+  · have : (voteBytes pos t).take nb = voteBytes pos t := by
+      apply List.take_of_length_le
+      rw [voteBytes, encodeTxnSt_length _ _ hb, mkTxn_tlen]; omega
+    rw [this]; exact Torn.checkpoint _ hb
+
+theorem torn_vote_take (pos : Nat) (t : FTxn) (h : AbortWF t) (n nb : Nat) :
+    Torn (((voteBytes pos t).take n).take nb) := by
+  rw [List.take_take]; exact torn_vote pos t h _
+
+theorem abortWF_of_txnWF {pos : Nat} {t : FTxn} (h : TxnWF pos (mkTxn pos t)) : AbortWF t := by
+  obtain ⟨_, _, _, _, _, _, _, h8, h9⟩ := h
+  refine ⟨?_, by simp at h8; omega⟩
+  intro r hr
+  have := h9 { r with tloc := pos } (by simp only [mkTxn, List.mem_map]; exact ⟨r, hr, rfl⟩)
+  exact this.2.2.2.2
+
+/-- a cut inside a vote write, before the truncate that follows it (abort after vote, failed vote) -/
+theorem vote_trunc_cut (cs : List FTxn) (hw : FileWF cs) (w : Bytes) (hw' : ∀ nb, Torn (w.take nb))
+    (k nb : Nat) (hk : k < 2) :
+    ∃ r, recover (image (encodeFile cs) [.write (filePos cs) w, .trunc (filePos cs)] k nb) = .ok r ∧
+      r.IsClean cs := by
+  have hp := filePos_eq cs hw
+  match k, hk with
+  | 0, _ =>
+    simp only [image, List.take_zero, applyEvents, List.foldl_nil, List.getElem?_cons_zero]
+    rw [applyWrite_end' _ _ _ hp]
+    exact recover_clean_tail' cs hw _ (hw' nb)
+  | 1, _ =>
+    have : w = w.take w.length := by simp
+    simp only [image, List.take_succ_cons, List.take_zero, applyEvents, List.foldl_cons,
+      List.foldl_nil, applyEv, List.getElem?_cons_succ, List.getElem?_cons_zero]
+    rw [applyWrite_end' _ _ _ hp, this]
+    exact recover_clean_tail' cs hw _ (hw' _)
+
+theorem vote_trunc_apply (cs : List FTxn) (hw : FileWF cs) (w : Bytes) :
+    applyEvents (encodeFile cs) [.write (filePos cs) w, .trunc (filePos cs)] = encodeFile cs := by
+  have hp := filePos_eq cs hw
+  simp only [applyEvents, List.foldl_cons, List.foldl_nil, applyEv]
+  rw [applyWrite_end' _ _ _ hp]
+  exact applyTrunc_end' _ _ _ hp
+
+/-- every cut inside the events of one commit -/
+theorem commit_cut (cs : List FTxn) (t : FTxn) (hw : FileWF cs)
+    (ht : TxnWF (filePos cs) (mkTxn (filePos cs) t)) (k nb : Nat) (hk : k < 4) :
+    ∃ n, returned ((opEvents cs (.commit t)).take k) ≤ n ∧ n ≤ 1 ∧
+      ∃ r, recover (image (encodeFile cs) (opEvents cs (.commit t)) k nb) = .ok r ∧
+        r.IsClean (cs ++ [mkTxn (filePos cs) t].take n) := by
+  have hp := filePos_eq cs hw
+  have ha := abortWF_of_txnWF ht
+  have hw1 := fileWF_append cs _ hw ht
+  have hfin : encodeFile cs ++ encodeTxnSt t.status (mkTxn (filePos cs) t)
+      = encodeFile (cs ++ [mkTxn (filePos cs) t]) := by
+    rw [encodeFile_append]; rfl
+  have hfull : (voteBytes (filePos cs) t).take (voteBytes (filePos cs) t).length
+      = voteBytes (filePos cs) t := by simp
+  match k, hk with
+  | 0, _ =>
+    refine ⟨0, by simp [returned], by omega, ?_⟩
+    simp only [image, opEvents, List.take_zero, applyEvents, List.foldl_nil,
+      List.getElem?_cons_zero, List.append_nil]
+    rw [applyWrite_end' _ _ _ hp]
+    exact recover_clean_tail' cs hw _ (torn_vote _ t ha nb)
+  | 1, _ =>
+    by_cases hnb : nb = 0
+    · refine ⟨0, by simp [returned, opEvents], by omega, ?_⟩
+      subst hnb
+      simp only [image, opEvents, List.take_succ_cons, List.take_zero, applyEvents, List.foldl_cons,
+        List.foldl_nil, applyEv, List.getElem?_cons_succ, List.getElem?_cons_zero, List.append_nil]
+      rw [applyWrite_end' _ _ _ hp]
+      simp only [applyWrite, List.length_nil, if_true]
+      rw [← hfull]
+      exact recover_clean_tail' cs hw _ (torn_vote _ t ha _)
+    · refine ⟨1, by simp [returned, opEvents], by omega, ?_⟩
+      have htk : (be 1 t.status).take nb = be 1 t.status :=
+        List.take_of_length_le (by simp [be_length]; omega)
+      simp only [image, opEvents, List.take_succ_cons, List.take_zero, applyEvents, List.foldl_cons,
+        List.foldl_nil, applyEv, List.getElem?_cons_succ, List.getElem?_cons_zero, htk]
+      rw [applyWrite_end' _ _ _ hp, voteBytes, applyWrite_status' _ _ _ _ _ hp, hfin]
+      exact recover_clean _ hw1
+  | 2, _ =>
+    refine ⟨1, by simp [returned, opEvents], by omega, ?_⟩
+    simp only [image, opEvents, List.take_succ_cons, List.take_zero, applyEvents, List.foldl_cons,
+      List.foldl_nil, applyEv, List.getElem?_cons_succ, List.getElem?_cons_zero]
+    rw [applyWrite_end' _ _ _ hp, voteBytes, applyWrite_status' _ _ _ _ _ hp, hfin]
+    exact recover_clean _ hw1
+  | 3, _ =>
+    refine ⟨1, by simp [returned, opEvents], by omega, ?_⟩
+    simp only [image, opEvents, List.take_succ_cons, List.take_zero, applyEvents, List.foldl_cons,
+      List.foldl_nil, applyEv, List.getElem?_cons_succ, List.getElem?_cons_zero]
+    rw [applyWrite_end' _ _ _ hp, voteBytes, applyWrite_status' _ _ _ _ _ hp, hfin]
+    exact recover_clean _ hw1
+
+theorem commit_apply (cs : List FTxn) (t : FTxn) (hw : FileWF cs) :
+    applyEvents (encodeFile cs) (opEvents cs (.commit t))
+      = encodeFile (cs ++ [mkTxn (filePos cs) t]) := by
+  have hp := filePos_eq cs hw
+  simp only [opEvents, applyEvents, List.foldl_cons, List.foldl_nil, applyEv]
+  rw [applyWrite_end' _ _ _ hp, voteBytes, applyWrite_status' _ _ _ _ _ hp, encodeFile_append]; rfl
+
+/-- every cut inside the events of one operation -/
+theorem op_cut (cs : List FTxn) (op : Op) (hw : FileWF cs) (ho : OpWF cs op) (k nb : Nat)
+    (hk : k < (opEvents cs op).length) :
+    ∃ n, returned ((opEvents cs op).take k) ≤ n ∧ n ≤ (opCommits cs op).length ∧
+      ∃ r, recover (image (encodeFile cs) (opEvents cs op) k nb) = .ok r ∧
+        r.IsClean (cs ++ (opCommits cs op).take n) := by
+  cases op with
+  | commit t => exact commit_cut cs t hw ho k nb (by simpa [opEvents] using hk)
+  | abortAfterVote t =>
+    refine ⟨0, ?_, by simp, ?_⟩
+    · have hk2 : k < 2 := by simpa [opEvents] using hk
+      match k, hk2 with
+      | 0, _ => simp [returned]
+      | 1, _ => simp [returned, opEvents]
+    · simp only [opEvents, opCommits, List.take_nil, List.append_nil]
+      exact vote_trunc_cut cs hw _ (torn_vote _ t ho) k nb (by simpa [opEvents] using hk)
+  | voteFails t n =>
+    refine ⟨0, ?_, by simp, ?_⟩
+    · have hk2 : k < 2 := by simpa [opEvents] using hk
+      match k, hk2 with
+      | 0, _ => simp [returned]
+      | 1, _ => simp [returned, opEvents]
+    · simp only [opEvents, opCommits, List.take_nil, List.append_nil]
+      exact vote_trunc_cut cs hw _ (torn_vote_take _ t ho n) k nb (by simpa [opEvents] using hk)
+  | abortBeforeVote => simp [opEvents] at hk
+
+/-- net effect of one complete operation -/
+theorem op_apply (cs : List FTxn) (op : Op) (hw : FileWF cs) (ho : OpWF cs op) :
+    applyEvents (encodeFile cs) (opEvents cs op) = encodeFile (cs ++ opCommits cs op) ∧
+    FileWF (cs ++ opCommits cs op) ∧
+    returned (opEvents cs op) = (opCommits cs op).length := by
+  cases op with
+  | commit t =>
+    exact ⟨commit_apply cs t hw, fileWF_append cs _ hw ho, by simp [returned, opEvents, opCommits]⟩
+  | abortAfterVote t =>
+    simp only [opCommits, List.append_nil]
+    exact ⟨vote_trunc_apply cs hw _, hw, by simp [returned, opEvents]⟩
+  | voteFails t n =>
+    simp only [opCommits, List.append_nil]
+    exact ⟨vote_trunc_apply cs hw _, hw, by simp [returned, opEvents]⟩
+  | abortBeforeVote =>
+    simp only [opCommits, List.append_nil]
+    exact ⟨rfl, hw, by simp [returned, opEvents]⟩
+
+/-! ### all histories, all cuts -/
+
+theorem crash_prefix (ops : List Op) : ∀ (cs : List FTxn) (k : Nat), FileWF cs → OpsWF cs ops →
+    ∀ nb, ∃ n, returned ((trace cs ops).take k) ≤ n ∧ n ≤ (newCommits cs ops).length ∧
+      ∃ r, recover (image (encodeFile cs) (trace cs ops) k nb) = .ok r ∧
+        r.IsClean (cs ++ (newCommits cs ops).take n) := by
+  induction ops with
+  | nil =>
+    intro cs k hw _ nb
+    refine ⟨0, by simp [trace, returned], by simp, ?_⟩
+    simp only [trace, newCommits, image, List.take_nil, applyEvents, List.foldl_nil,
+      List.getElem?_nil, List.append_nil]
+    exact recover_clean cs hw
+  | cons op ops ih =>
+    intro cs k hw ho nb
+    obtain ⟨ho1, ho2⟩ := ho
+    obtain ⟨happ, hw', hret⟩ := op_apply cs op hw ho1
+    simp only [trace, newCommits]
+    by_cases hk : k < (opEvents cs op).length
+    · obtain ⟨n, h1, h2, r, h3, h4⟩ := op_cut cs op hw ho1 k nb hk
+      refine ⟨n, ?_, by simp; omega, r, ?_, ?_⟩
+      · rw [returned_append_lt _ _ _ hk]; exact h1
+      · rw [image_append_lt _ _ _ _ _ hk]; exact h3
+      · rw [List.take_append_of_le_length h2]; exact h4
+    · have hk' : (opEvents cs op).length ≤ k := by omega
+      obtain ⟨n, h1, h2, r, h3, h4⟩ := ih (cs ++ opCommits cs op) (k - (opEvents cs op).length)
+        hw' ho2 nb
+      refine ⟨(opCommits cs op).length + n, ?_, by simp; omega, r, ?_, ?_⟩
+      · rw [returned_append_ge _ _ _ hk', hret]; omega
+      · rw [image_append_ge _ _ _ _ _ hk', happ]; exact h3
+      · rw [List.take_length_add_append, ← List.append_assoc]; exact h4
+
+/-- final state of a complete history -/
+theorem trace_apply (ops : List Op) : ∀ (cs : List FTxn), FileWF cs → OpsWF cs ops →
+    applyEvents (encodeFile cs) (trace cs ops) = encodeFile (cs ++ newCommits cs ops) ∧
+    FileWF (cs ++ newCommits cs ops) ∧ returned (trace cs ops) = (newCommits cs ops).length := by
+  induction ops with
+  | nil => intro cs hw _; simp [trace, newCommits, applyEvents, returned, hw]
+  | cons op ops ih =>
+    intro cs hw ho
+    obtain ⟨happ, hw', hret⟩ := op_apply cs op hw ho.1
+    obtain ⟨h1, h2, h3⟩ := ih _ hw' ho.2
+    simp only [trace, newCommits]
+    refine ⟨?_, by rw [← List.append_assoc]; exact h2, ?_⟩
+    · rw [applyEvents, List.foldl_append]
+      rw [applyEvents] at happ h1
+      rw [happ, h1, List.append_assoc]
+    · simp only [returned, List.count_append, List.length_append] at *
+      omega
+
+
+/-! ### recovery is idempotent -/
+
+theorem isClean_ext {r r' : Recovered} {p : List FTxn} (h : r.IsClean p) (h' : r'.IsClean p)
+    (hh : r'.how = .eof) (hs : r'.saved = none) : r' = { r with how := .eof, saved := none } := by
+  obtain ⟨a1, a2, a3, a4, a5⟩ := h
+  obtain ⟨b1, b2, b3, b4, b5⟩ := h'
+  cases r; cases r'
+  simp_all
+
+/-- opening the recovered file once more finds exactly the same state, with nothing to cut off -/
+theorem recover_idempotent_of_clean (b : Bytes) (r : Recovered) (p : List FTxn) (hp : FileWF p)
+    (h : recover b = .ok r) (hc : r.IsClean p) :
+    recover r.bytes = .ok { r with how := .eof, saved := none } := by
+  obtain ⟨r', h1, h2, h3, h4⟩ := recover_clean_eof p hp
+  have h5 : recover r.bytes = .ok r' := by rw [hc.1]; exact h1
+  rw [h5, isClean_ext hc h2 h3 h4]
+
+/-! ### fsync before return -/
+
+/-- the event modifies the file below offset `n` -/
+def touchesBelow (n : Nat) : Ev → Prop
+  | .write off _ => off < n
+  | .trunc m => m < n
+  | .fsync => False
+  | .ret => False
+
+theorem touchesBelow_mono {n m : Nat} (h : n ≤ m) (e : Ev) (he : ¬ touchesBelow m e) :
+    ¬ touchesBelow n e := by
+  cases e <;> simp only [touchesBelow] at * <;> omega
+
+theorem filePos_append (cs ds : List FTxn) :
+    filePos (cs ++ ds) = filePos cs + (ds.map fun t => t.tlen + 8).sum := by
+  simp [filePos]; omega
+
+theorem filePos_le_op (cs : List FTxn) (op : Op) : filePos cs ≤ filePos (cs ++ opCommits cs op) := by
+  rw [filePos_append]; omega
+
+/-- no event of a history touches the data committed before it -/
+theorem trace_touches (ops : List Op) : ∀ (cs : List FTxn), ∀ e ∈ trace cs ops,
+    ¬ touchesBelow (filePos cs) e := by
+  induction ops with
+  | nil => intro cs e he; simp [trace] at he
+  | cons op ops ih =>
+    intro cs e he
+    simp only [trace, List.mem_append] at he
+    rcases he with he | he
+    · cases op with
+      | commit t =>
+        simp only [opEvents, List.mem_cons, List.not_mem_nil, or_false] at he
+        rcases he with rfl | rfl | rfl | rfl <;> simp [touchesBelow]
+      | abortAfterVote t =>
+        simp only [opEvents, List.mem_cons, List.not_mem_nil, or_false] at he
+        rcases he with rfl | rfl <;> simp [touchesBelow]
+      | voteFails t n =>
+        simp only [opEvents, List.mem_cons, List.not_mem_nil, or_false] at he
+        rcases he with rfl | rfl <;> simp [touchesBelow]
+      | abortBeforeVote => simp [opEvents] at he
+    · exact touchesBelow_mono (filePos_le_op cs op) e (ih _ e he)
+
+/-- the only `ret` among the events of one operation is the last event of a commit -/
+theorem opEvents_ret (cs : List FTxn) (op : Op) (pre post : List Ev)
+    (h : opEvents cs op = pre ++ .ret :: post) :
+    ∃ t, op = .commit t ∧ post = [] ∧
+      pre = [.write (filePos cs) (voteBytes (filePos cs) t),
+             .write (filePos cs + 16) (be 1 t.status), .fsync] := by
+  cases op with
+  | commit t =>
+    refine ⟨t, rfl, ?_⟩
+    simp only [opEvents] at h
+    rcases pre with _ | ⟨a, _ | ⟨b, _ | ⟨c, _ | ⟨d, pre⟩⟩⟩⟩ <;> simp at h
+    · obtain ⟨rfl, rfl, rfl, rfl⟩ := h; simp
+  | abortAfterVote t =>
+    simp only [opEvents] at h
+    rcases pre with _ | ⟨a, _ | ⟨b, _ | ⟨c, pre⟩⟩⟩ <;> simp at h
+  | voteFails t n =>
+    simp only [opEvents] at h
+    rcases pre with _ | ⟨a, _ | ⟨b, _ | ⟨c, pre⟩⟩⟩ <;> simp at h
+  | abortBeforeVote => simp [opEvents] at h
+
+theorem fsync_before_return (ops : List Op) : ∀ (cs : List FTxn) (pre post : List Ev),
+    OpsWF cs ops → trace cs ops = pre ++ .ret :: post →
+    ∃ pre' p w s, pre = pre' ++ [.write p w, .write (p + 16) s, .fsync] ∧ 16 < w.length ∧
+      s.length = 1 ∧ ∀ e ∈ post, ¬ touchesBelow (p + w.length) e := by
+  induction ops with
+  | nil => intro cs pre post _ h; simp [trace] at h
+  | cons op ops ih =>
+    intro cs pre post ho h
+    simp only [trace] at h
+    rcases List.append_eq_append_iff.1 h with ⟨a', h1, h2⟩ | ⟨c', h1, h2⟩
+    · obtain ⟨pre', p, w, s, e1, e2, e3, e4⟩ := ih _ a' post ho.2 h2
+      exact ⟨opEvents cs op ++ pre', p, w, s, by rw [h1, e1, List.append_assoc], e2, e3, e4⟩
+    · cases c' with
+      | nil =>
+        simp only [List.nil_append] at h2
+        obtain ⟨pre', p, w, s, e1, _⟩ := ih _ [] post ho.2 h2.symm
+        simp at e1
+      | cons x c'' =>
+        simp only [List.cons_append, List.cons.injEq] at h2
+        obtain ⟨rfl, hpost⟩ := h2
+        obtain ⟨t, rfl, hc, hpre⟩ := opEvents_ret cs op pre c'' h1
+        subst hc
+        have hwf : TxnWF (filePos cs) (mkTxn (filePos cs) t) := ho.1
+        have hlen : (voteBytes (filePos cs) t).length = t.tlen + 8 := by
+          rw [voteBytes, encodeTxnSt_length _ _ (mkTxn_body _ t (abortWF_of_txnWF hwf).1), mkTxn_tlen]
+        refine ⟨[], filePos cs, voteBytes (filePos cs) t, be 1 t.status, by simpa using hpre, ?_,
+          by simp [be_length], ?_⟩
+        · rw [hlen]; simp [FTxn.tlen, FTxn.hdrLen]; omega
+        · intro e he
+          rw [hpost] at he
+          simp only [List.nil_append] at he
+          have := trace_touches ops _ e he
+          rw [filePos_append] at this
+          simpa [opCommits, hlen] using this
 
 end Proofs.Disk
